@@ -141,14 +141,11 @@ valid_case = specgen.valid_case
 
 
 def excluded_features() -> set[str]:
-    if os.environ.get("VERIF_DIRTY") == "1":
-        return set()
-    out = set()
-    for prop in ("C01",):
-        for k in load_known_findings(prop):
-            if k.get("status") == "open":
-                out.update(k.get("exclude_features", []))
-    return out
+    # root causes listed under C03 (synthesised inline type names that collide / lose their prefix) can also surface as
+    # import-time failures, so their triggers are excluded here as well
+    from .. import domain
+
+    return domain.excluded("C01", "C03")
 
 
 def shards(tier: str, seed: int) -> list[dict]:
